@@ -15,6 +15,7 @@ import (
 
 	"github.com/hyperledger/aries-framework-go/component/storageutil/mem"
 	"github.com/hyperledger/aries-framework-go/pkg/didcomm/common/service"
+	"github.com/hyperledger/aries-framework-go/pkg/didcomm/protocol/mediator"
 	"github.com/hyperledger/aries-framework-go/pkg/didcomm/protocol/messagepickup"
 	mockdispatcher "github.com/hyperledger/aries-framework-go/pkg/mock/didcomm/dispatcher"
 	mockprovider "github.com/hyperledger/aries-framework-go/pkg/mock/provider"
@@ -31,6 +32,7 @@ type Op struct {
 	N      int    `json:"n"`               // pickup: batch_size
 	Fault  string `json:"fault,omitempty"` // "", get, put0, put1, send
 	Async  bool   `json:"async,omitempty"` // go through HandleInbound (goroutine) instead of the sync hook
+	Alias  bool   `json:"alias,omitempty"` // fwd: the recipient's DID resolves to a document with a different id
 }
 
 // Obs is what the implementation did for one op.
@@ -57,6 +59,20 @@ type world struct {
 	failSend  bool
 	sent      []map[string]interface{}
 	sendTried chan struct{}
+	med       *mediator.Service // attached by attachMediator (histories with "fwd" ops)
+	relayOK   bool
+	relayed   []int
+}
+
+func mustMsg(v interface{}) service.DIDCommMsgMap {
+	b, _ := json.Marshal(v)
+
+	m, err := service.ParseDIDCommMsgMap(b)
+	if err != nil {
+		panic(err)
+	}
+
+	return m
 }
 
 func newWorld() *world {
@@ -203,6 +219,13 @@ func (w *world) apply(op Op) (obs Obs) {
 		}
 
 		return Obs{Out: "added"}
+	case "fwd":
+		// a forward through the real mediator whose relay to the recipient fails: held in the recipient's inbox
+		if err = w.forward(op.DID, op.Msg); err != nil {
+			return Obs{Out: "err"}
+		}
+
+		return Obs{Out: "added"}
 	case "status", "pickup":
 		m := map[string]interface{}{"@id": "req-1"}
 		if op.Kind == "status" {
@@ -305,7 +328,7 @@ func coqFault(f string) string {
 
 func coqOp(o Op) string {
 	switch o.Kind {
-	case "add":
+	case "add", "fwd":
 		return fmt.Sprintf("Add %d %d %s", o.DID, o.Msg, coqFault(o.Fault))
 	case "status":
 		return fmt.Sprintf("Status %d %s %s", o.DID, hx.CoqBool(o.Thread), coqFault(o.Fault))
@@ -374,6 +397,19 @@ func eqInts(a, b []int) bool {
 
 func runHistory(kind string, ops []Op, tr *hx.Trace) {
 	w := newWorld()
+
+	for _, o := range ops {
+		if o.Kind == "fwd" {
+			alias := false
+			for _, x := range ops {
+				alias = alias || x.Alias
+			}
+
+			w.attachMediator(alias)
+
+			break
+		}
+	}
 	obs := make([]Obs, 0, len(ops))
 	accepted := map[int][]int{}
 	delivered := map[int][]int{}
@@ -498,7 +534,7 @@ func number(ops []Op) []Op {
 
 	for i, o := range ops {
 		out[i] = o
-		if o.Kind == "add" {
+		if o.Kind == "add" || o.Kind == "fwd" {
 			n++
 			out[i].Msg = n + 6
 		}
@@ -650,6 +686,35 @@ func main() {
 	}
 
 	enumerate(small, deep, func(ops []Op) { runHistory("exhaustive-small", ops, tr) })
+
+	// the mediator's fall-back into the inbox: forwards whose relay fails are held (real mediator + real pickup service),
+	// with the recipient's DID resolving to a document of the same / of another id
+	for _, alias := range []bool{false, true} {
+		medAlpha := []Op{{Kind: "fwd", DID: 1, Alias: alias}, {Kind: "fwd", DID: 2, Alias: alias}, {Kind: "fwd", DID: 1, Fault: "put1", Alias: alias},
+			{Kind: "fwd", DID: 1, Fault: "get", Alias: alias}, {Kind: "add", DID: 1}, {Kind: "status", DID: 1, Thread: true},
+			{Kind: "pickup", DID: 1, N: 1}, {Kind: "pickup", DID: 1, N: 100}, {Kind: "pickup", DID: 2, N: 100}, {Kind: "pickup", DID: 1, N: 1, Fault: "send"}}
+		enumerate(medAlpha, 3, func(ops []Op) {
+			for _, o := range ops {
+				if o.Kind == "fwd" {
+					runHistory("mediator-fallback", ops, tr)
+					return
+				}
+			}
+		})
+	}
+
+	for i := 0; i < nRandom/6; i++ {
+		r := rng.Fork(uint64(3_000_000 + i))
+		h := randomHistory(r, full, 3+r.Intn(10), false)
+
+		for j := range h {
+			if h[j].Kind == "add" && r.Intn(3) > 0 {
+				h[j].Kind, h[j].Alias = "fwd", i%2 == 1
+			}
+		}
+
+		runHistory("mediator-fallback-random", h, tr)
+	}
 
 	for i := 0; i < nRandom; i++ {
 		r := rng.Fork(uint64(i))
